@@ -210,6 +210,7 @@ class Worker(Node):
             super().__init__()
             self.builder: 'flow.Builder' = builder
             self.uid: uuid.UUID = uuid.uuid4()
+            self.trained: bool = False  # sticky - unlike the port registry it does not depend on object lifetimes
 
         def __repr__(self):
             return f'{self.builder}[uid={self.uid}]'
@@ -300,7 +301,10 @@ class Worker(Node):
         Returns:
             True if persistent.
         """
-        return self.stateful and any(n.trained for n in self.group if n is not self)
+        if not self.stateful:
+            return False
+        # the trained fork stays subscribed only for as long as its (possibly otherwise unreferenced) publisher lives
+        return any(n.trained for n in self.group if n is not self) or (self._group.trained and not self.trained)
 
     @property
     def gid(self) -> uuid.UUID:
@@ -333,6 +337,7 @@ class Worker(Node):
             raise _exception.TopologyError('Fork train collision')
         train.publish(self, port.Train())
         label.publish(self, port.Label())
+        self._group.trained = True
 
     def subscribed(self, publisher: 'flow.Node') -> bool:
         """Checking we are on given node's subscription list.
